@@ -1470,6 +1470,9 @@ class Database:
                         histData[c][paramName][cycle, timeNode] = val
 
         r = comps[0].getAncestor(lambda c: isinstance(c, Reactor))
+        if r is None:
+            # objects that have left the reactor: there is no current step to add to what was written
+            return histData
         cycleNode = r.p.cycle, r.p.timeNode
         for c, paramHistories in histData.items():
             for paramName, hist in paramHistories.items():
